@@ -94,10 +94,16 @@ TFailed ==
   /\ Ev.msgok
   /\ UNCHANGED << kvars, cands, best >> /\ Step
 
+TRerun ==
+  /\ Is("rerun")
+  /\ Rerun
+  /\ cands' = {} /\ best' = << >>
+  /\ Step
+
 Diag ==
   /\ "DIAG" \in DOMAIN IOEnv
   /\ l <= Len(Tr.events)
-  /\ ~ ENABLED (TBuild \/ TEval \/ TBounds \/ TCand \/ TChamp \/ TDone \/ TFailed)
+  /\ ~ ENABLED (TBuild \/ TEval \/ TBounds \/ TCand \/ TChamp \/ TDone \/ TFailed \/ TRerun)
   /\ PrintT(<<"EXPECTED", tid, l,
               ToJson([phase |-> phase, rangesok |-> RangesOK,
                       expect |-> IF Ev.e = "eval" /\ phase = "ready" /\ Len(Ev.x) = Dim
@@ -106,7 +112,7 @@ Diag ==
                       best |-> [i \in DOMAIN best |-> best[i]]])>>)
   /\ FALSE /\ UNCHANGED tvars
 
-TNext == TBuild \/ TEval \/ TBounds \/ TCand \/ TChamp \/ TDone \/ TFailed \/ Diag
+TNext == TBuild \/ TEval \/ TBounds \/ TCand \/ TChamp \/ TDone \/ TFailed \/ TRerun \/ Diag
 TSpec == TInit /\ [][TNext]_tvars
 Accepted == l = Len(Tr.events) + 1
 
